@@ -85,6 +85,8 @@ def main(tier, replay):
         cases.append(('d%d' % i, 'fam', ch, ('lua', 'null', 'promela')[i % 3], h))
         ch, h = C.gen_hist_chart(base + 850000 + i)
         cases.append(('h%d' % i, 'fam', ch, ('lua', 'null', 'promela')[i % 3], h))
+        ch, h = C.gen_multiinit_chart(base + 870000 + i)      # target sets with several members at different depths
+        cases.append(('mi%d' % i, 'fam', ch, ('lua', 'null', 'promela')[i % 3], h))
         for k in range(3):
             # selection among parallel regions: domains of every size on the same event
             ch, h = C.gen_conflict_chart(base + 900000 + 3 * i + k)
